@@ -108,7 +108,7 @@ class DefGen:
                 d = self.default_for(t, nullable_all)
                 if d is not None:
                     f["default"] = d
-            if t in ("string", "int32", "int64") and r.random() < 0.15:
+            if t in ("string", "int32", "int64") and r.random() < 0.25:
                 et = r.choice([k for k, v in ENTITY_TYPES.items() if v == t])
                 f["entityType"] = et
         if kind == "primArr":
@@ -340,7 +340,20 @@ def crafted() -> list[dict]:
                                "fields": [F("Name", "string"), F("Results", "[]Zc14Result")]},
                               {"name": "Zc14Result", "versions": "0+",
                                "fields": [F("PartitionIndex", "int32"), F("LeaderEpoch", "int32"), F("HighWatermark", "int64")]}]}
-    out = [d1, d2, d3, d7, d8, d9, *d10, d11, d12, d13]
+    # entity types crossed with every source of nullability: declared nullable versions, tagged and
+    # ignorable without a default (implicitly None / 0), explicit null default, and as array items
+    d15 = {"type": "data", "name": "Zc15EntityRecord", "validVersions": "0-2", "flexibleVersions": "1+",
+           "fields": [F("Anchor", "int16"),
+                      F("Owner", "string", versions="1+", taggedVersions="1+", tag=0, ignorable=True, entityType="groupId"),
+                      F("Leader", "int32", versions="1+", taggedVersions="1+", tag=1, ignorable=True, entityType="brokerId"),
+                      F("Topic", "string", nullableVersions="2+", entityType="topicName"),
+                      F("Txn", "string", versions="1+", taggedVersions="1+", tag=2, nullableVersions="1+", default="null",
+                        entityType="transactionalId"),
+                      F("Producer", "int64", default="-1", entityType="producerId"),
+                      F("Replicas", "[]int32", entityType="brokerId"),
+                      F("Observers", "[]int32", versions="1+", taggedVersions="1+", tag=3, entityType="brokerId"),
+                      F("Topics", "[]string", versions="2+", entityType="topicName")]}
+    out = [d1, d2, d3, d7, d8, d9, *d10, d11, d12, d13, d15]
     for key, stem in ((7, "Zc3Shutdown"), (18, "Zc4Versions")):
         for kind in ("request", "response"):
             out.append({"type": kind, "name": stem + kind.capitalize(), "apiKey": key, "validVersions": "0-4",
